@@ -5,18 +5,117 @@
  *   c03_wf run <seed> <nmut> <tmpdir> <file>...      all variants of the files
  *   c03_wf one <file> <mutseed> <smpctl> <via 0 mem|1 path|2 FILE|3 callbacks> <tmpdir> [<otherfile>]   one variant (replay)
  *   c03_wf emit <file> <mutseed> [<otherfile>]       print the variant's bytes as hex
+ *   c03_wf hdr <mod|s3m|xm|it> <tmpdir> <file>...    each file once through that ONE format loader (header tie)
  *
  * Every variant is a deterministic function of (file bytes, other file bytes, mutseed);
  * mutseed 0 is the intact file.  Output per successful load:
  *   begin wf file=<path> mutseed=<n> smpctl=<0|1> via=<mem|path> other=<path|-> what=<load|mode:k|rescan>
  *   <dump lines>            (for what != load only the lines that can change: mod, seq, ctl)
  *   end
- * and one line `load rc=<rc> …` per attempt (for the statistics).
+ * and one line `load rc=<rc> …` per attempt (for the statistics).  Every load that passes the sanity gate
+ * is preceded by
+ *   begin rawload file=… what=raw rc=<rc of the load>
+ *   <raw dump: the module as the format loader left it, before load_module modifies anything>
+ *   cv <0|1>, scan <ep> <chain> <time> <n> <orders marked>*   (the spied scan_module calls)
+ *   end
  */
 #include <unistd.h>
 #include <sys/stat.h>
 #include "xmp.h"
+#include "common.h"
+
+/* ---- the raw module of a real load -------------------------------------- */
+/* src/load.c and src/scan.c are compiled into this unit (the archive members are then not
+ * pulled).  The calls of libxmp_adjust_string inside load_module are redirected to a spy: the
+ * first one (`mod->name`) comes right after the sanity gate, before anything is modified, so
+ * the spy sees the module exactly as the format loader left it (the RAW module the Lean
+ * predicate LoaderOblig and the model `finish` are about).  The static scan_module is spied
+ * as in c03_inject.c, so the model can be run on the raw dump and compared with the result. */
+static int c03_spy_scan_module(struct context_data *ctx, int ep, int chain);
+#define scan_module(a, b, c) C03_SM_##a, b, c)
+#define C03_SM_ctx c03_spy_scan_module(ctx
+#define C03_SM_struct c03_real_scan_module(struct
+#include "scan.c"
+#undef scan_module
+
+/* `format_loaders` as load.c sees it: normally the library's table; the `hdr` mode narrows it to
+ * one loader so that a header the loader refuses is not picked up by another format's test. */
+#include "format.h"
+#include "loaders/loader.h"
+static const struct format_loader *const *c03_format_loaders = format_loaders;
+static char *c03_spy_adjust(char *s);
+#define libxmp_adjust_string(s) c03_spy_adjust(s)
+#define format_loaders c03_format_loaders
+#include "load.c"
+#undef format_loaders
+#undef libxmp_adjust_string
+
 #include "c03_dump.h"
+
+static struct context_data *raw_ctx;	/* context of the load in progress */
+static FILE *raw_f;			/* memory stream: raw dump + scan lines */
+static char *raw_buf;
+static size_t raw_len;
+static int raw_taken, raw_scans;
+
+static char *c03_spy_adjust(char *s)
+{
+	if (raw_ctx != NULL && raw_f != NULL && !raw_taken && s == raw_ctx->m.mod.name) {
+		raw_taken = 1;
+		c03_dump_ex(raw_f, raw_ctx, NULL, 1);
+	}
+	return libxmp_adjust_string(s);
+}
+
+static int c03_spy_scan_module(struct context_data *ctx, int ep, int chain)
+{
+	unsigned char before[XMP_MAX_MOD_LENGTH];
+	int t, i, n = 0;
+
+	if (ctx != raw_ctx || raw_f == NULL || !raw_taken)
+		return c03_real_scan_module(ctx, ep, chain);
+	if (raw_scans++ == 0) {
+		/* the condition under which libxmp_scan_sequences compares CIA and VBlank timing */
+		fprintf(raw_f, "cv %d\n", ctx->m.compare_vblank && !(ctx->p.flags & XMP_FLAGS_VBLANK));
+	}
+	memcpy(before, ctx->p.sequence_control, XMP_MAX_MOD_LENGTH);
+	t = c03_real_scan_module(ctx, ep, chain);
+	for (i = 0; i < XMP_MAX_MOD_LENGTH; i++)
+		n += before[i] != ctx->p.sequence_control[i];
+	fprintf(raw_f, "scan %d %d %d %d", ep, chain, t, n);
+	for (i = 0; i < XMP_MAX_MOD_LENGTH; i++) {
+		if (before[i] != ctx->p.sequence_control[i])
+			fprintf(raw_f, " %d", i);
+	}
+	fputc('\n', raw_f);
+	return t;
+}
+
+static void raw_begin(struct context_data *ctx)
+{
+	raw_ctx = ctx;
+	raw_taken = raw_scans = 0;
+	raw_buf = NULL;
+	raw_len = 0;
+	raw_f = open_memstream(&raw_buf, &raw_len);
+}
+
+/* ends the observation; returns the text (to be freed) or NULL when the gate was not passed */
+static char *raw_end(void)
+{
+	char *r = NULL;
+	if (raw_f != NULL) {
+		fclose(raw_f);
+		if (raw_taken)
+			r = raw_buf;
+		else
+			free(raw_buf);
+	}
+	raw_f = NULL;
+	raw_buf = NULL;
+	raw_ctx = NULL;
+	return r;
+}
 
 static const char *tmpdir = "/tmp";
 
@@ -299,12 +398,16 @@ static int run_variant(const char *file, const unsigned char *bytes, long n, uin
 	char path[4096];
 	int rc, k;
 
+	char *rawtxt;
+
 	if (smpctl)
 		xmp_set_player(opaque, XMP_PLAYER_SMPCTL, XMP_SMPCTL_SKIP);
+	raw_begin(ctx);
 	if (bypath == 2) {
 		/* FILE* entry point: the bytes through a temporary file */
 		FILE *f = tmpfile();
 		if (f == NULL) {
+			free(raw_end());
 			xmp_free_context(opaque);
 			return -99;
 		}
@@ -331,6 +434,7 @@ static int run_variant(const char *file, const unsigned char *bytes, long n, uin
 				 (unsigned long long)mutseed, base ? base + 1 : file);
 			f = fopen(path, "wb");
 			if (f == NULL) {
+				free(raw_end());
 				xmp_free_context(opaque);
 				return -99;
 			}
@@ -348,8 +452,21 @@ static int run_variant(const char *file, const unsigned char *bytes, long n, uin
 	} else {
 		rc = xmp_load_module_from_memory(opaque, bytes, n);
 	}
+	rawtxt = raw_end();
 	printf("load rc=%d file=%s mutseed=%llu smpctl=%d via=%s\n", rc, enc(file), (unsigned long long)mutseed, smpctl,
 	       via_name[bypath & 3]);
+	if (rawtxt != NULL) {
+		/* the module as the format loader left it (it passed the gate), the scans, and how the load ended */
+		if (rc == 0)
+			set_fmt(ctx->m.mod.type);
+		else
+			strcpy(cur_fmt, "?");
+		printf("begin rawload file=%s mutseed=%llu smpctl=%d via=%s other=%s fmt=%s what=raw rc=%d\n", enc(file),
+		       (unsigned long long)mutseed, smpctl, via_name[bypath & 3], enc(other), cur_fmt, rc);
+		fputs(rawtxt, stdout);
+		puts("end");
+		free(rawtxt);
+	}
 	if (rc == 0) {
 		/* the public view is the one we dump */
 		xmp_get_module_info(opaque, &mi);
@@ -412,6 +529,28 @@ int main(int argc, char **argv)
 		if (argc > 7 && strcmp(argv[7], "-")) oth = read_file(argv[7], &on);
 		b = mutate(src, n, oth, on, ms, &m, kind);
 		run_variant(argv[2], b, m, ms, atoi(argv[4]), atoi(argv[5]), argc > 7 ? argv[7] : NULL, 3);
+		return 0;
+	}
+	if (argc >= 5 && !strcmp(argv[1], "hdr")) {
+		/* c03_wf hdr <mod|s3m|xm|it> <tmpdir> <file>...: each file once, from memory, through ONE loader */
+		extern const struct format_loader libxmp_loader_mod, libxmp_loader_s3m, libxmp_loader_xm, libxmp_loader_it;
+		static const struct format_loader *one[2];
+		int fi;
+		one[0] = !strcmp(argv[2], "mod") ? &libxmp_loader_mod : !strcmp(argv[2], "s3m") ? &libxmp_loader_s3m :
+			 !strcmp(argv[2], "xm") ? &libxmp_loader_xm : &libxmp_loader_it;
+		one[1] = NULL;
+		c03_format_loaders = one;
+		tmpdir = argv[3];
+		for (fi = 4; fi < argc; fi++) {
+			long n;
+			unsigned char *src = read_file(argv[fi], &n);
+			if (!src || n <= 0) {
+				printf("skip %s\n", argv[fi]);
+				continue;
+			}
+			run_variant(argv[fi], src, n, 0, 0, 0, NULL, 0);
+			free(src);
+		}
 		return 0;
 	}
 	if (argc >= 6 && !strcmp(argv[1], "run")) {
